@@ -35,6 +35,8 @@ pub mod lints;
 pub mod parser;
 pub mod passes;
 pub mod reader;
+#[cfg(feature = "rva_verif")]
+pub mod verif;
 
 // #[test]
 // fn parse_int_from_symbol() {
